@@ -209,7 +209,12 @@ async def wait_for_dependencies(
         futures.append(suc_sim.progress.has_reached(next_step + adapt))
     if lazy_stepping:
         for suc_sim, adapt in sim.successors.items():
-            futures.append(suc_sim.progress.has_reached(next_step + adapt))
+            # Only wait for the successor's main time. Its earlier
+            # sub-steps of the same time step may depend on our later
+            # sub-steps via simulators outside our group (which do not
+            # see our sub-time), so waiting for them can deadlock.
+            lazy_target = TieredTime(next_step.time, *([0] * (len(adapt) - 1)))
+            futures.append(suc_sim.progress.has_reached(lazy_target))
 
     await asyncio.gather(*futures)
 
